@@ -41,6 +41,20 @@ impl Sub {
       Sub::None => {}
     }
   }
+  /// the guard is dropped because its scope unwinds (a caught panic): still a drop
+  pub fn drop_guard_unwinding(&mut self) {
+    let me = std::mem::replace(self, Sub::None);
+    let _ = std::panic::catch_unwind(std::panic::AssertUnwindSafe(move || {
+      let mut me = me;
+      let _g: Box<dyn std::any::Any> = match std::mem::replace(&mut me, Sub::None) {
+        Sub::L(s) => Box::new(s.unsubscribe_when_dropped()),
+        Sub::T(s) => Box::new(s.unsubscribe_when_dropped()),
+        Sub::None => Box::new(()),
+      };
+      // unwinds without going through the panic hook
+      std::panic::resume_unwind(Box::new("scope unwinds"));
+    }));
+  }
   pub fn is_some(&self) -> bool {
     !matches!(self, Sub::None)
   }
